@@ -17,7 +17,8 @@ CfgClasses == {"none", "valid", "validempty", "invalid", "emptyjson"}   \* Confi
                                    \* validempty: a valid custom media type whose content is {} (same digest as the empty JSON blob)
 LayerClasses == {"nil", "empty", "one", "many"}
 AnnClasses == {"none", "nocreated", "created", "badcreated"}
-Targets == {"memory", "prefilled", "oci", "pusheronly"}
+\* "file": a file store, the manifest is given a name (title annotation) so that the store keeps it under that name
+Targets == {"memory", "prefilled", "oci", "pusheronly", "file"}
 
 CaseSpace == [ver : Versions, at : AtClasses, cfg : CfgClasses, cfgann : BOOLEAN, layers : LayerClasses,
               subject : BOOLEAN, ann : AnnClasses, target : Targets]
